@@ -29,7 +29,8 @@ if [ ! -x .build/bin/vgen ] || [ tools/vgen/main.go -nt .build/bin/vgen ]; then
 fi
 gen=.build/gen-$v.$$
 rm -rf "$gen"; mkdir -p "$gen"
-(cd "$REPO" && "$VERIF_ROOT/.build/bin/vgen" -dir "$REPO" -out "$VERIF_ROOT/$gen" ${VERIF_EXTRA_OVERLAY:+-overlay "$VERIF_EXTRA_OVERLAY"} $pkgs)
+flags=""; [ "$v" = iter ] && flags="-time"
+(cd "$REPO" && "$VERIF_ROOT/.build/bin/vgen" $flags -dir "$REPO" -out "$VERIF_ROOT/$gen" ${VERIF_EXTRA_OVERLAY:+-overlay "$VERIF_EXTRA_OVERLAY"} $pkgs)
 python3 tools/mkoverlay.py "$gen/ov.json" ${VERIF_EXTRA_OVERLAY:+--merge "$VERIF_EXTRA_OVERLAY"} --merge "$gen/overlay.json"
 (cd "$REPO" && go build -modfile="$VERIF_MODFILE" -tags verif -overlay "$VERIF_ROOT/$gen/ov.json" -o "$VERIF_ROOT/.build/bin/$v" $(main_of "$v"))
 rm -rf ".build/gen-$v"; mv "$gen" ".build/gen-$v"
